@@ -49,11 +49,18 @@ def prove_schema(name):
     if name in _PROVED:
         return _PROVED[name]
     vars_, body = SCHEMAS[name]
-    s = z3.Solver()
-    s.set("timeout", 60000)
-    s.add(z3.Not(body))
-    r = s.check()
+    # nonlinear schemas: z3 normally answers in 0.1 s but was seen to run into the 60 s limit once on a loaded machine
+    # (C18 `ror`, seventh session): several fresh solvers with different seeds before the answer counts as unknown
     how = None
+    r = z3.unknown
+    for seed, limit in ((0, 20000), (1, 20000), (2, 20000), (3, 60000)):
+        s = z3.Solver()
+        s.set("timeout", limit)
+        s.set("random_seed", seed)
+        s.add(z3.Not(body))
+        r = s.check()
+        if r != z3.unknown:
+            break
     if r == z3.unsat:
         how = "z3"
     elif r == z3.unknown:
